@@ -57,6 +57,16 @@ def ref_codec(codec, lo, hi, dev):
     return out
 
 
+def pdfdoc_table(ctx, F, R="R-TABLE"):
+    """PDFDocEncoding as published (ISO 32000-1 Annex D.2): also what passwords of revisions 2-4 are converted with."""
+    t = table(F, "PDF_DOC_ENCODING")
+    ref = {**ref_codec("latin_1", 0x20, 0x7E, {}), **ref_codec("latin_1", 0xA1, 0xFF, PDFDOC_SPECIAL), **PDFDOC_SPECIAL}
+    diff = [(b, t[b], ref[b]) for b in sorted(ref) if t[b] != ref[b]]
+    ctx.ob(R, "published-table|PDF_DOC_ENCODING", not diff, "%d cells of PDF_DOC_ENCODING equal the published table" % len(ref), "src/encodings/mappings.rs",
+           what="PDF_DOC_ENCODING differs from the published table at %s: a password (revisions 2-4) or text string containing such a character is converted to another byte than every other producer uses"
+                % [("%02X" % b, got and "%04X" % got, want and "%04X" % want) for b, got, want in diff[:8]])
+
+
 def run(ctx):
     F = ctx.facts("default")
     R = "R-TABLE"
